@@ -564,12 +564,19 @@ structure PrinterCfg where
 /-- the repairs found in the checked-out source -/
 def theCfg : PrinterCfg := ⟨Gen.Grammar.printerFix.1, Gen.Grammar.printerFix.2.1, Gen.Grammar.printerFix.2.2⟩
 
-def argFormatC (cfg : PrinterCfg) (ds : List Char) (kws : List Str) (v : Str) : Str :=
+def argFormatC0 (cfg : PrinterCfg) (ds : List Char) (kws : List Str) (v : Str) : Str :=
   if cfg.fixE && (v.isEmpty || v.head? == some '{' || v.head? == some '"' || v.contains '=') then '{' :: (v ++ ['}'])
   else if !cfg.fixE && v.head? == some '{' then v
   else if cfg.fixA && kws.contains (lower v) then '{' :: (v ++ ['}'])
   else if v.any ds.contains then '{' :: (v ++ ['}'])
   else v
+
+/-- `_arg_format` of the checked-out code: since the (proposed) repair of "a value with `=` is read back as a named
+    parameter" a value that contains `=` and does not start with `{` is enclosed in braces first
+    (`Gen.Grammar.printerBracesEquals`, read from the source) -/
+def argFormatC (cfg : PrinterCfg) (ds : List Char) (kws : List Str) (v : Str) : Str :=
+  if Gen.Grammar.printerBracesEquals && !(v.head? == some '{') && v.contains '=' then '{' :: (v ++ ['}'])
+  else argFormatC0 cfg ds kws v
 
 def fmtArgsC (cfg : PrinterCfg) (ds : List Char) (kws : List Str) : List (Option Str) → List Str
   | [] => []
